@@ -1,5 +1,163 @@
 /-
-C03 — property theorems (stub: not built yet).
+C03 — search acceleration never loses, adds or moves a match.
+
+Model: `RegexVerif.Scan` mirrors `Runner.scan` over an abstract single-position attempt, an abstract
+candidate finder and an abstract bump-along update (Model/Scan.lean).  The theorems say when the
+accelerated scan is the naive scan, and reduce the soundness of every fact-driven candidate finder to
+the truth of the fact at real matches (which is property C04).  Oracle N (leg of this property)
+compares the real accelerated find with the naive-scan hook on the engine itself.
 -/
+import RegexVerif.Lemmas.Scan
+
 namespace RegexVerif.Props.C03
+open RegexVerif RegexVerif.Scan RegexVerif.Lemmas.Scan
+
+/-- **Acceleration is transparent.**  With a candidate finder that only skips positions at which
+    the program fails, a bump-along update with the same property, and a minimum-length fact that
+    holds at every successful attempt, `Runner.scan` (start offset, previous-match length, either
+    direction) returns exactly what the naive scan returns: the first successful attempt in scan
+    order, resuming at the match's end. -/
+theorem acceleration_transparent (finder : Nat → Bool × Nat) (after : Nat → Nat) (attempt : Nat → Option (Nat × Nat))
+    (rtl : Bool) (n L : Nat)
+    (hS : AttemptShape rtl n attempt) (hF : FinderSound rtl n finder attempt)
+    (hA : AfterSound rtl n after attempt) (hM : MinLenSound rtl n L attempt)
+    (start : Nat) (prevLen : Int) (hstart : start ≤ n) :
+    scan finder after attempt start prevLen rtl n L = (naive attempt start prevLen rtl n).map (Hit.ofSpan rtl) :=
+  scan_eq_naive finder after attempt rtl n L hS hF hA hM start prevLen hstart
+
+/-- The shape of every fact-driven candidate finder: jump to the first position in scan order at
+    which a *necessary condition* `C` of a match holds (the leading prefix occurs here; the rune at
+    the fixed offset is in the set; the literal follows the leading loop; …). -/
+def condFinder (C : Nat → Bool) (rtl : Bool) (n pos : Nat) : Bool × Nat :=
+  match (scanOrder rtl n pos).find? C with
+  | some q => (true, q)
+  | none => (false, stopPos rtl n)
+
+theorem find?_scanOrder_spec (C : Nat → Bool) (rtl : Bool) (n : Nat) :
+    ∀ (d pos : Nat), dist rtl n pos = d → pos ≤ n →
+      match (scanOrder rtl n pos).find? C with
+      | some q => C q = true ∧ q ∈ scanOrder rtl n pos ∧
+          ∀ p, p ∈ scanOrder rtl n pos → (if rtl then q < p else p < q) → C p = false
+      | none => ∀ p, p ∈ scanOrder rtl n pos → C p = false := by
+  intro d
+  induction d with
+  | zero =>
+    intro pos hd hpos
+    have hstop : pos = stopPos rtl n := by cases rtl <;> simp [dist, stopPos] at hd ⊢ <;> omega
+    rw [scanOrder_step rtl n pos hpos, if_pos hstop]
+    by_cases hc : C pos = true
+    · simp only [List.find?_cons, hc]
+      refine ⟨trivial, by simp, ?_⟩
+      intro p hp hlt; simp at hp; subst hp; cases rtl <;> simp at hlt
+    · simp only [List.find?_cons, hc, List.find?_nil]
+      intro p hp; simp at hp; subst hp; simpa using hc
+  | succ d ih =>
+    intro pos hd hpos
+    have hns : pos ≠ stopPos rtl n := by cases rtl <;> simp [dist, stopPos] at hd ⊢ <;> omega
+    have hb : bump rtl pos ≤ n := by cases rtl <;> simp [bump, dist] at hd ⊢ <;> omega
+    have hbd : dist rtl n (bump rtl pos) = d := by cases rtl <;> simp [bump, dist] at hd ⊢ <;> omega
+    rw [scanOrder_step rtl n pos hpos, if_neg hns]
+    by_cases hc : C pos = true
+    · simp only [List.find?_cons, hc]
+      refine ⟨trivial, by simp, ?_⟩
+      intro p hp hlt
+      simp only [List.mem_cons] at hp
+      rcases hp with rfl | hp
+      · cases rtl <;> simp at hlt
+      · rw [mem_scanOrder] at hp
+        cases rtl <;> simp [bump] at hp hlt <;> omega
+    · have hcf : C pos = false := by simpa using hc
+      simp only [List.find?_cons, hcf]
+      have := ih (bump rtl pos) hbd hb
+      cases hf : (scanOrder rtl n (bump rtl pos)).find? C with
+      | none =>
+        rw [hf] at this
+        intro p hp
+        simp only [List.mem_cons] at hp
+        rcases hp with rfl | hp
+        · exact hcf
+        · exact this p hp
+      | some q =>
+        rw [hf] at this
+        obtain ⟨h1, h2, h3⟩ := this
+        refine ⟨h1, by simp [h2], ?_⟩
+        intro p hp hlt
+        simp only [List.mem_cons] at hp
+        rcases hp with rfl | hp
+        · exact hcf
+        · exact h3 p hp hlt
+
+/-- **A finder that jumps to the next position satisfying a necessary condition of a match is
+    sound.**  If `C p` holds at every position where the program matches (that is: the published
+    fact is true at every real match — property C04), then skipping to the first `C`-position loses
+    nothing, and "no `C`-position left" means no match is left.  Both directions. -/
+theorem condFinder_sound (C : Nat → Bool) (rtl : Bool) (n : Nat) (attempt : Nat → Option (Nat × Nat))
+    (hC : ∀ p, p ≤ n → attempt p ≠ none → C p = true) :
+    FinderSound rtl n (condFinder C rtl n) attempt := by
+  intro pos hpos
+  have hspec := find?_scanOrder_spec C rtl n (dist rtl n pos) pos rfl hpos
+  have hfail : ∀ p, p ≤ n → C p = false → attempt p = none := by
+    intro p hp hcp
+    cases ha : attempt p with
+    | none => rfl
+    | some m => have := hC p hp (by rw [ha]; simp); rw [this] at hcp; simp at hcp
+  unfold condFinder
+  cases hf : (scanOrder rtl n pos).find? C with
+  | none =>
+    rw [hf] at hspec
+    cases rtl
+    · simp only [Bool.false_eq_true, if_false, stopPos]
+      refine ⟨hpos, Nat.le_refl _, by simp, ?_⟩
+      intro _ p h1 h2
+      exact hfail p h2 (hspec p ((mem_scanOrder false n pos p).mpr (by simp; omega)))
+    · simp only [if_true, stopPos]
+      refine ⟨Nat.zero_le _, by simp, ?_⟩
+      intro _ p h1
+      exact hfail p (by omega) (hspec p ((mem_scanOrder true n pos p).mpr (by simp; omega)))
+  | some q =>
+    rw [hf] at hspec
+    obtain ⟨_, hq, hbetween⟩ := hspec
+    rw [mem_scanOrder] at hq
+    cases rtl
+    · simp only [Bool.false_eq_true, if_false] at hq ⊢
+      refine ⟨hq.1, hq.2, ?_, by simp⟩
+      intro _ p h1 h2
+      exact hfail p (by omega) (hbetween p ((mem_scanOrder false n pos p).mpr (by simp; omega)) (by simpa using h2))
+    · simp only [if_true] at hq ⊢
+      refine ⟨hq, ?_, by simp⟩
+      intro _ p h1 h2
+      exact hfail p (by omega) (hbetween p ((mem_scanOrder true n pos p).mpr (by simpa using h2)) (by simpa using h1))
+
+/-- Corollary: with fact-driven finding, no bump-along (`after = id`) and no length cut-off, the
+    scan is the naive scan as soon as the fact holds at every real match. -/
+theorem fact_driven_scan_eq_naive (C : Nat → Bool) (attempt : Nat → Option (Nat × Nat)) (rtl : Bool) (n : Nat)
+    (hS : AttemptShape rtl n attempt) (hC : ∀ p, p ≤ n → attempt p ≠ none → C p = true)
+    (start : Nat) (prevLen : Int) (hstart : start ≤ n) :
+    scan (condFinder C rtl n) id attempt start prevLen rtl n 0 = (naive attempt start prevLen rtl n).map (Hit.ofSpan rtl) := by
+  apply scan_eq_naive _ _ _ rtl n 0 hS (condFinder_sound C rtl n attempt hC) _ _ start prevLen hstart
+  · intro q _ _
+    cases rtl
+    · simp only [Bool.false_eq_true, if_false, id]; exact ⟨Nat.le_refl _, by assumption, fun p h1 h2 => by omega⟩
+    · simp only [if_true, id]; exact ⟨Nat.le_refl _, fun p h1 h2 => by omega⟩
+  · intro p i l _ _; cases rtl <;> simp
+
+/-- **The minimum-length cut-off is sound as soon as the fact is**: a successful attempt needs at
+    least `L` runes ahead, so positions with fewer are skipped without loss (this is `tooShort`). -/
+theorem minLen_cutoff_sound (rtl : Bool) (n L pos : Nat) (attempt : Nat → Option (Nat × Nat))
+    (hS : AttemptShape rtl n attempt) (hM : MinLenSound rtl n L attempt) (hpos : pos ≤ n)
+    (h : tooShort rtl n L pos = true) : naiveFrom attempt rtl n pos = none :=
+  naiveFrom_eq_none attempt rtl n pos (tooShort_all_fail rtl n L pos attempt hS hM hpos h)
+
+/-! ### non-vacuity: `ab` on "xabab" with the leading-literal condition "an `a` is here" -/
+
+def demoAttempt : Nat → Option (Nat × Nat) := fun p => if p = 1 ∨ p = 3 then some (p, 2) else none
+def demoC : Nat → Bool := fun p => p = 1 || p = 3
+
+example : AttemptShape false 5 demoAttempt := by
+  intro p i l hp h; simp [demoAttempt] at h; simp; omega
+example : ∀ p, p ≤ 5 → demoAttempt p ≠ none → demoC p = true := by
+  intro p hp h; simp [demoAttempt] at h; simp [demoC]; omega
+example : scan (condFinder demoC false 5) id demoAttempt 0 (-1) false 5 0 = some ⟨1, 2, 3⟩ := by decide
+example : condFinder demoC false 5 2 = (true, 3) ∧ condFinder demoC false 5 4 = (false, 5) := by decide
+
 end RegexVerif.Props.C03
